@@ -103,6 +103,8 @@ def run(ctx):
     ctx.rule("R3.shrink-trailing-empty", "shrink_to_fit truncates to one past the last non-empty slab", floor=1, shape_dependent=True)
     ctx.rule("R4.handle-provenance", "SlabHandle::new only from Slab::insert_with_unchecked with (free-list head, object_ptr_unchecked(head)); RawPooledMut::new only from RawOpaquePool::insert_with_unchecked with the slab index used to index slabs; copy-constructors keep index/slab_index", floor=6)
     ctx.rule("R5.offset-agreement", "slot offset = second component of Layout::extend(meta, object); stride = that layout pad_to_align'ed; array align = padded slot align; readers are slot_ptr_unchecked/object_ptr_unchecked only", floor=5)
+    ctx.rule("R8.routing-key", "the blind pools' routing key is built from BOTH Layout::size and Layout::align in disjoint bit ranges, and an inner pool is created with the layout its key was built from", floor=4)
+    ctx.rule("R9.vacancy-block-writes", "an existing vacancy-map block is only modified bit-wise (old | mask, old & mask); the block vector is only resized/truncated", floor=3)
     ctx.rule("R7.vacancy-resize-contract", "VacancyMap::resize is called only from update_slab_count and always with fill=true", floor=1)
 
     # ---------------- R1
@@ -354,3 +356,163 @@ def run(ctx):
         ok = ok and bool(c and c.get("val") == 1)
     ctx.ob("R7.vacancy-resize-contract", "resize(count,true)", ok, rs[0][0].loc(rs[0][2]["span"]) if rs else "",
            f"callers {[b.key for b, _, _ in rs]}; fill argument constant true")
+
+    routing_rules(ctx, prog)
+    vacancy_block_rules(ctx, prog)
+
+
+def _names(sl):
+    return [k.split("::")[-1] for k, _, _ in sl["calls"]]
+
+
+def routing_rules(ctx, prog):
+    kn = prog.one("blind::layout_key::LayoutKey::new")
+    if kn is None:
+        ctx.missing("R8.routing-key", "LayoutKey::new")
+        return
+    ctx.fn(kn)
+    val = None
+    for blk in kn.blocks:
+        for st in blk.stmts:
+            if st["k"] == "assign" and st["rv"]["k"] == "aggr" and str(st["rv"].get("adt", "")).endswith("LayoutKey"):
+                val = st["rv"]["ops"][0]
+    if val is None:
+        ctx.missing("R8.routing-key", "LayoutKey aggregate in LayoutKey::new")
+        return
+    sl = Slice(kn).run(val)
+    ns = _names(sl)
+    both = "size" in ns and "align" in ns
+    # one component shifted by >= 32, the other bounded by u32::MAX
+    shift_ok = False
+    shifted = None
+    for blk in kn.blocks:
+        for st in blk.stmts:
+            if st["k"] == "assign" and st["rv"]["k"] == "binop" and st["rv"]["op"] == "Shl" and st["place"]["l"] in sl["locals"]:
+                c = resolve_const(kn, st["rv"]["b"])
+                if c and c.get("val", 0) >= 32:
+                    shift_ok = True
+                    shifted = set(_names(Slice(kn).run(st["rv"]["a"]))) & {"size", "align"}
+    other = ({"size", "align"} - shifted) if shifted and len(shifted) == 1 else set()
+    bounded = False
+    for blk in kn.blocks:
+        t = blk.term
+        if t["k"] == "switch":
+            l = op_local(t["discr"])
+            d = kn.unique_def(l) if l is not None else None
+            if d and d[2] == "assign" and d[3]["rv"]["k"] == "binop" and d[3]["rv"]["op"] in ("Le", "Lt"):
+                a = set(_names(Slice(kn).run(d[3]["rv"]["a"]))) & {"size", "align"}
+                c = resolve_const(kn, d[3]["rv"]["b"])
+                if other and a == other and c and c.get("val") is not None and c["val"] <= 0xFFFFFFFF:
+                    bounded = True
+    comb = any(o in sl["binops"] for o in ("BitOr", "Add", "BitXor"))
+    ctx.ob("R8.routing-key", "key-from-size-and-align", both and shift_ok and bounded and comb, kn.loc(),
+           f"value derives from Layout::size and Layout::align: {both}; one component shifted by >= 32 ({sorted(shifted or [])}): {shift_ok}; "
+           f"the unshifted component ({sorted(other)}) is checked <= u32::MAX: {bounded}")
+    # with_layout_of::<T> builds the key from Layout::new::<T>
+    kw = prog.one("blind::layout_key::LayoutKey::with_layout_of")
+    if kw is not None:
+        ctx.fn(kw)
+        cs = calls_to(kw, "LayoutKey::new")
+        ok = len(cs) == 1 and "new" in _names(Slice(kw).run(cs[0][1]["args"][0])) and \
+            any(k.endswith("Layout::new") for k, _, _ in Slice(kw).run(cs[0][1]["args"][0])["calls"])
+        ctx.ob("R8.routing-key", "with_layout_of", ok, kw.loc(), "with_layout_of::<T>() = LayoutKey::new(Layout::new::<T>())")
+    # creation sites: the layout given to the new inner pool and the key's layout are the same value
+    n_sites = 0
+    for b in prog.bodies:
+        if "::blind::" not in b.key or b.is_closure:
+            continue
+        keys = calls_to(b, "LayoutKey::new")
+        if not keys:
+            continue
+        # layouts used for pool creation in this function or its closures, or forwarded with the key
+        uses = []
+        for cb in [b] + prog.closures_of(b):
+            for bb, t in cb.calls():
+                m = t["callee"].get("method")
+                k = callee_key(t["callee"])
+                if (m in ("layout", "with_layout") and "RawOpaquePool" in k) or (m == "inner_pool_mut" and "blind" in k):
+                    arg = t["args"][1] if m != "with_layout" else t["args"][0]
+                    uses.append((cb, bb, t, arg))
+        if not uses:
+            continue
+        key_roots = set()
+        for _bb, t in keys:
+            key_roots |= _layout_roots(b, b, t["args"][0], prog)
+        for cb, bb, t, arg in uses:
+            n_sites += 1
+            roots = _layout_roots(b, cb, arg, prog)
+            ok = bool(roots) and roots == key_roots and len(roots) == 1
+            ctx.ob("R8.routing-key", f"pool-layout-is-key-layout|{b.key.split('::', 1)[1]}|{t['callee'].get('method')}", ok, cb.loc(t["span"]),
+                   f"layout roots of the key: {sorted(key_roots)}; of the pool creation: {sorted(roots)}")
+    if n_sites == 0:
+        ctx.missing("R8.routing-key", "inner-pool creation sites in blind::*")
+
+
+def _layout_roots(parent, body, op, prog):
+    """Where does a Layout operand come from: parameter ('param:N'), a Layout::new::<T> call ('new@bb'), seen through
+    closure captures into the parent."""
+    from ..analysis import closure_capture_ops
+    sl = Slice(body, through_calls=False).run(op)
+    roots = set()
+    for k, bb, t in Slice(body).run(op)["calls"]:
+        if k.endswith("Layout::new") or k.endswith("Layout::for_value"):
+            roots.add(f"new@{body.key == parent.key and bb}")
+    if body.is_closure and sl["upvars"]:
+        for _bb, cops in closure_capture_ops(parent, body.key):
+            for i in sl["upvars"]:
+                if i < len(cops):
+                    roots |= _layout_roots(parent, parent, cops[i], prog)
+        return roots
+    if not roots:
+        for a in sl["args"]:
+            if "Layout" in body.local_ty(a)["s"]:
+                roots.add(f"param:{a}")
+    return roots
+
+
+BLOCK_VEC_OK = {"resize", "truncate", "get_unchecked_mut", "get_unchecked", "get", "len", "is_empty", "new", "deref", "deref_mut",
+                "as_slice", "index", "iter", "with_capacity", "capacity"}
+
+
+def vacancy_block_rules(ctx, prog):
+    bodies = [b for b in prog.bodies if "::opaque::vacancy_map::" in b.key]
+    if not bodies:
+        ctx.missing("R9.vacancy-block-writes", "opaque::vacancy_map")
+        return
+    n = 0
+    for b in bodies:
+        for blk in b.blocks:
+            for st in blk.stmts:
+                if st["k"] != "assign" or st["place"]["p"] != ["*"]:
+                    continue
+                ty = b.local_ty(st["place"]["l"])["s"]
+                if ty not in ("&mut u64", "*mut u64"):
+                    continue
+                n += 1
+                ctx.fn(b)
+                rv = st["rv"]
+                ok = rv["k"] == "binop" and rv["op"] in ("BitOr", "BitAnd") and any(
+                    (op_place(o) or {}).get("l") == st["place"]["l"] and (op_place(o) or {}).get("p") == ["*"] for o in (rv["a"], rv["b"]))
+                ctx.ob("R9.vacancy-block-writes", f"{b.key.split('::')[-1]}|store-through-block-ref", ok, b.loc(st.get("span")),
+                       f"{st['text'][:120]} -- must be old|mask or old&mask of the same block")
+        # methods on the block vector
+        for bb, t in b.calls():
+            if not t["args"]:
+                continue
+            root, fields = op_access_path(b, t["args"][0])
+            if fields and fields[-1].endswith("VacancyMap::blocks") or (fields and any(f.endswith("VacancyMap::blocks") for f in fields) and "Vec" in callee_key(t["callee"])):
+                m = t["callee"].get("method")
+                if "Vec" not in callee_key(t["callee"]) and "slice" not in callee_key(t["callee"]):
+                    continue
+                n += 1
+                ok = m in BLOCK_VEC_OK
+                det = f"Vec/slice method `{m}` on VacancyMap::blocks"
+                if m == "resize" and ok:
+                    # fill value chosen by the initial_value parameter between all-ones and zero
+                    sl = Slice(b).run(t["args"][2])
+                    vals = sorted(c.get("val") for c in sl["consts"] if "val" in c)
+                    ok = 0 in vals and (2 ** 64 - 1) in vals
+                    det += f"; fill constants {vals}"
+                ctx.ob("R9.vacancy-block-writes", f"{b.key.split('::')[-1]}|blocks.{m}", ok, b.loc(t["span"]), det)
+    if n == 0:
+        ctx.missing("R9.vacancy-block-writes", "writes to vacancy-map blocks")
